@@ -107,6 +107,7 @@ func runC11(ctx *core.Ctx) {
 	indexRewriteRules(ctx)
 	truncGuard(ctx, "R5", false)
 	expectedIDReadOnly(ctx, "R7")
+	indexNilMeansWritten(ctx, "R8")
 	// R2 summary
 	if cpf := ctx.Need("R2", "cache", "(*Cache).copyFile"); cpf != nil {
 		g := graph(p, cpf)
@@ -336,4 +337,65 @@ func expectedIDReadOnly(ctx *core.Ctx, rule string) {
 		}
 	})
 	ctx.Check(bad == "", rule, "cache.copyFile#expected-id-readonly", cpf.Pos(), "the expected id is only compared against %s", bad)
+}
+
+// indexNilMeansWritten: putIndexEntry reports success only after the entry was
+// written: every return of a nil error lies behind a successful write to the
+// index file it opened. A shortcut that returns nil earlier leaves an old
+// mapping in place while Put reports the new one as stored.
+func indexNilMeansWritten(ctx *core.Ctx, rule string) {
+	p := ctx.P
+	ctx.Rule(rule, "the index write is not skipped: in putIndexEntry every return of a nil error is dominated by a write of the entry to the opened index file whose error was found nil", 1)
+	pidx := ctx.Need(rule, "cache", "(*Cache).putIndexEntry")
+	if pidx == nil {
+		return
+	}
+	g := graph(p, pidx)
+	var writes []*ssa.Call
+	for _, open := range g.Calls("os.OpenFile") {
+		fm := fileMethodCalls(g, ssax.Extracted(open, 0))
+		for _, n := range []string{"WriteString", "Write"} {
+			writes = append(writes, fm[n]...)
+		}
+	}
+	n, bad := 0, ""
+	for _, r := range g.Returns() {
+		rv := ssax.ReturnValues(r)
+		// a return whose error is nil on some path: the constant nil, or a value known nil there
+		isNil := ssax.IsNil(rv[len(rv)-1])
+		if !isNil {
+			continue
+		}
+		n++
+		ok := false
+		for _, w := range writes {
+			if g.Dominates(w, r) && ssax.KnownNil(g.FactsAtInstr(r), errOf(w), true) {
+				ok = true
+			}
+		}
+		if !ok {
+			bad = "a nil return is reachable without a successful write of the entry"
+		}
+	}
+	// returns of a merged error value: each nil leaf must come from behind the write as well
+	for _, r := range g.Returns() {
+		rv := ssax.ReturnValues(r)
+		_, leaves := phiWeb(rv[len(rv)-1])
+		for _, l := range leaves {
+			if !ssax.IsNil(l.Val) {
+				continue
+			}
+			n++
+			ok := false
+			for _, w := range writes {
+				if g.DomBlock(w.Block().Index, l.Pred.Index) && ssax.KnownNil(factsOnEdge(g, l.Pred, l.Phi.Block()), errOf(w), true) {
+					ok = true
+				}
+			}
+			if !ok {
+				bad = "a nil result is merged in from a path without a successful write of the entry"
+			}
+		}
+	}
+	ctx.Check(bad == "" && len(writes) > 0, rule, "cache.putIndexEntry#nil-means-written", pidx.Pos(), "success is reported only after the entry was written (%d nil results examined) %s", n, bad)
 }
